@@ -453,3 +453,86 @@ MUTANTS += [
       "        return set(verinfo for (verinfo, shares) in self.make_versionmap().items()\n"
       "                   if len(set(shnum for (shnum, server, timestamp) in shares)) >= verinfo[5])\n", None),
 ]
+
+
+# ---- seeded C11-I (another property's refactor, anchored in the same code): all ServerMap queries answered from one
+# per-version table _version_health(); best_recoverable_version() = max(.., default=None); unrecoverable_newer_versions() =
+# dict((verinfo, (found, k)) for .. if ..); needs_merge as len(set(..)) < len(..); _check_for_done (MODE_READ) asks
+# unrecoverable_newer_versions().  `count` is the per-version count of the table (the seeded slip sits there).
+_VH_HELPER = ("    def _version_health(self):\n        health = {}\n"
+              "        for (verinfo, shares) in self.make_versionmap().items():\n"
+              "            (seqnum, root_hash, IV, segsize, datalength, k, N, prefix,\n             offsets_tuple) = verinfo\n"
+              "%s        return health\n\n")
+_VH_FAITHFUL = ("            shnums = set([shnum for (shnum, server, timestamp) in shares])\n"
+                "            health[verinfo] = (len(shnums), k, N)\n")
+_VH_SLIP = "            health[verinfo] = (len(shares), k, N)\n"
+_VH_CLASS = ("        return set(verinfo\n                   for (verinfo, (found, k, N))\n"
+             "                   in self._version_health().items()\n                   if found %s k)\n")
+_VH_BEST = "        return max(self.recoverable_versions(), default=None)\n"
+_VH_NEWER = ("        health = self._version_health()\n        highest_recoverable_seqnum = max(\n            [verinfo[0]\n"
+             "             for (verinfo, (found, k, N)) in health.items()\n             if found >= k],\n            default=-1)\n"
+             "        return dict((verinfo, (found, k))\n                    for (verinfo, (found, k, N)) in health.items()\n"
+             "                    if found < k and verinfo[0] > highest_recoverable_seqnum)\n")
+_VH_EDITS = [
+    (_OLD_SA, "        return self._version_health()\n"),
+    ("        available = self.shares_available()\n        seqnums = [verinfo[0]\n                   for verinfo in available.keys()]\n"
+     "        seqnums.append(0)\n        return max(seqnums)\n",
+     "        return max([verinfo[0] for verinfo in self._version_health()],\n                   default=0)\n"),
+    (_OLD_REC, _VH_CLASS % ">="),
+    (_OLD_UNREC, _VH_CLASS % "<"),
+    ("        recoverable = list(self.recoverable_versions())\n        recoverable.sort()\n        if recoverable:\n"
+     "            return recoverable[-1]\n        return None\n", _VH_BEST),
+    (_OLD_NEWER, _VH_NEWER),
+    ("        for seqnum in recoverable_seqnums:\n            if recoverable_seqnums.count(seqnum) > 1:\n                return True\n"
+     "        return False\n", "        return len(set(recoverable_seqnums)) < len(recoverable_seqnums)\n"),
+    ("        recoverable_versions = self._servermap.recoverable_versions()\n"
+     "        unrecoverable_versions = self._servermap.unrecoverable_versions()\n",
+     "        recoverable_versions = self._servermap.recoverable_versions()\n"),
+    ("            highest_recoverable = max(recoverable_versions)\n            highest_recoverable_seqnum = highest_recoverable[0]\n"
+     "            for unrec_verinfo in unrecoverable_versions:\n                if unrec_verinfo[0] > highest_recoverable_seqnum:\n",
+     "            if True:\n                if self._servermap.unrecoverable_newer_versions():\n"),
+]
+
+
+def _vh_refactor(mid, expect, count=_VH_FAITHFUL, swaps=()):
+    helper = _VH_HELPER % count
+    edits = []
+    used = set()
+    for (old, new) in _VH_EDITS:
+        for (a, b) in swaps:
+            if a in new:
+                new = new.replace(a, b)
+                used.add(a)
+        edits.append((SM, old, new))
+    assert used == {a for (a, _b) in swaps}, mid
+    return M(mid, SM, _SA_DEF, helper + _SA_DEF, expect, edits=edits)
+
+
+MUTANTS += [
+    # the refactor done faithfully (the table counts distinct share numbers): every C14 rule stays silent
+    _vh_refactor("version-health-refactor-faithful", None),
+    _vh_refactor("version-health-refactor-faithful-guarded-max", None,
+                 swaps=[(_VH_BEST, "        recoverable = self.recoverable_versions()\n        if not recoverable:\n            return None\n"
+                                   "        return max(recoverable)\n")]),
+    # the seeded slip breaks this property too: the table counts (shnum, server, timestamp) placements
+    _vh_refactor("version-health-refactor-counts-placements", "C14.11", count=_VH_SLIP),
+    # real breakages of this property in the refactored shape
+    _vh_refactor("version-health-refactor-best-is-min", "C14.4",
+                 swaps=[("return max(self.recoverable_versions(), default=None)", "return min(self.recoverable_versions(), default=None)")]),
+    _vh_refactor("version-health-refactor-best-among-unrecoverable", "C14.4",
+                 swaps=[("return max(self.recoverable_versions(), default=None)", "return max(self.unrecoverable_versions(), default=None)")]),
+    _vh_refactor("version-health-refactor-best-defaults-to-a-version-like-tuple", "C14.4",
+                 swaps=[("return max(self.recoverable_versions(), default=None)", "return max(self.recoverable_versions(), default=(0,))")]),
+    _vh_refactor("version-health-refactor-best-by-datalength", "C14.4",
+                 swaps=[("return max(self.recoverable_versions(), default=None)",
+                         "return max(self.recoverable_versions(), default=None, key=lambda v: v[4])")]),
+    _vh_refactor("version-health-refactor-newer-keeps-recoverable-ones", "C14.11",
+                 swaps=[("                    if found < k and verinfo[0] > highest_recoverable_seqnum)",
+                         "                    if found >= k and verinfo[0] > highest_recoverable_seqnum)")]),
+    _vh_refactor("version-health-refactor-newer-bound-over-all-versions", "C14.11",
+                 swaps=[("             for (verinfo, (found, k, N)) in health.items()\n             if found >= k],\n",
+                         "             for (verinfo, (found, k, N)) in health.items()],\n")]),
+    # fail closed: a falsy non-None answer for "nothing recoverable" is not decided
+    _vh_refactor("version-health-refactor-best-defaults-to-empty-tuple", "ANALYSIS-ERROR",
+                 swaps=[("return max(self.recoverable_versions(), default=None)", "return max(self.recoverable_versions(), default=())")]),
+]
